@@ -13,12 +13,14 @@ Definition bin_val (b : binop) (l r : value) : outcome :=
   | Lt => eval_cmp 0 l r | Gt => eval_cmp 1 l r | Eq => eval_cmp 2 l r | Le => eval_cmp 3 l r | Ge => eval_cmp 4 l r
   | Ne => eval_cmp 5 l r
   end.
+Definition bin_res (b : binop) (l r : value) : res value :=
+  match b with Amp => amp_res l r | _ => of_outcome (bin_val b l r) end.
 Fixpoint tree_val (t : tree) : res value :=
   match t with
   | Atom d => ROk (VInt (digits_z d))
   | Par t => tree_val t
   | Neg t => rbind (tree_val t) (fun v => of_outcome (eval_neg v))
-  | Bin b l r => rbind (tree_val l) (fun lv => rbind (tree_val r) (fun rv => of_outcome (bin_val b lv rv)))
+  | Bin b l r => rbind (tree_val l) (fun lv => rbind (tree_val r) (fun rv => bin_res b lv rv))
   end.
 (* parentheses never change the value *)
 Inductive utree := UAtom (d : list Z) | UNeg (u : utree) | UBin (b : binop) (l r : utree).
@@ -28,7 +30,7 @@ Fixpoint utree_val (u : utree) : res value :=
   match u with
   | UAtom d => ROk (VInt (digits_z d))
   | UNeg t => rbind (utree_val t) (fun v => of_outcome (eval_neg v))
-  | UBin b l r => rbind (utree_val l) (fun lv => rbind (utree_val r) (fun rv => of_outcome (bin_val b lv rv)))
+  | UBin b l r => rbind (utree_val l) (fun lv => rbind (utree_val r) (fun rv => bin_res b lv rv))
   end.
 Theorem parens_irrelevant t : tree_val t = utree_val (strip t).
 Proof. induction t as [d|t IH|b l IHl r IHr|t IH]; cbn [tree_val strip utree_val]; rewrite ?IH, ?IHl, ?IHr; reflexivity. Qed.
@@ -121,9 +123,9 @@ Opaque eval_arith eval_amp eval_cmp eval_neg.
 Lemma bin_action h b lv rv :
   sem_action h (match b with Plus | Minus | Mult | Div | Amp => 2 | _ => 3 end) [- E; op_term b; - E]
     [SVval lv; SVtok (op_lexeme b); SVval rv] =
-  (rbind (of_outcome (bin_val b lv rv)) (fun v => ROk (SVval v)), []).
+  (rbind (bin_res b lv rv) (fun v => ROk (SVval v)), []).
 Proof.
-  destruct b; unfold sem_action, tok_is, bin_val; cbn [op_lexeme list_eqb Z.eqb Pos.eqb andb no_ev]; reflexivity.
+  destruct b; unfold sem_action, tok_is, bin_res, bin_val; cbn [op_lexeme list_eqb Z.eqb Pos.eqb andb no_ev]; reflexivity.
 Qed.
 
 Lemma lr_shift_step h st t rest a : action_of (top_state st) (tk t) = Some a -> (0 <? a) = true ->
@@ -178,7 +180,6 @@ Proof.
   - (* Bin *)
     destruct Hwp as (Hwl & Hwr & Hl & Hr). cbn [tree_val] in Hv.
     apply rbind_ok in Hv. destruct Hv as (lv & El & Hv). apply rbind_ok in Hv. destruct Hv as (rv & Er & Hv).
-    apply of_outcome_ok in Hv.
     cbn [toks]. rewrite <- app_assoc. cbn [app].
     unfold enter_ok in Hent. cbn [topop] in Hent. cbn [nsteps].
     eapply lrs_trans.
